@@ -560,29 +560,55 @@ func checkC12(w *World, r *Report) {
 }
 
 func o1(w *World, r *Report) {
-	d := "phi(recv.delegateeLedger.Get|recv.delegateeLedger.GetFinality)(ledger.ToLedgerKey(p0.Tx.To))#0"
-	h := "p0.Tx.Payload.(*types.TrxPayloadUnstaking).TxHash"
-	cond := "(p0.Tx.From.Compare(" + d + ".FindStake(" + h + ")#1.From) != 0)"
-	alt := "(bytes.Compare(p0.Tx.From, " + d + ".FindStake(" + h + ")#1.From) != 0)"
+	// facts (operand patterns): the sender is not the owner of the stake named by
+	// the payload / that stake does not exist
+	stake := `delegateeLedger\.(Get|GetFinality).*\(ledger\.ToLedgerKey\(p0\.Tx\.To\)\)#0\)?\.FindStake\(p0\.Tx\.Payload\.\(\*types\.TrxPayloadUnstaking\)(#0)?\.TxHash\)#1`
+	notOwner := AR(`^p0\.Tx\.From$`, "!=", stake+`\.From$`)
+	missing := AR(stake+`$`, "==", `^nil$`)
 	sv := needFn(r, "O-1", w, fref{pkgStake, "StakeCtrler", "ValidateTrx"})
 	if sv != nil {
-		gs := w.FindGuards(sv, func(c string) bool { return c == cond || c == alt })
-		ok := len(gs) == 1
-		n := 0
-		if ok {
-			ok, n = w.okPathsPassGuard(sv, w.evalTxCond(txAbs{typ: 3}), gs[0])
-		}
-		r.Check(ok && n > 0, "O-1", "ValidateTrx(unstaking):owner", fmt.Sprintf("all %d success paths of an unstaking validation pass the owner check on the stake named by the payload", n), "an unstaking transaction from someone who does not own the stake can pass validation", fnSite(w, sv))
+		base := w.evalTxCond(txAbs{typ: 3})
+		ok, why := w.failsUnder(sv, base, notOwner)
+		sane := w.runUnder(sv, base, nil)
+		r.Check(ok && sane.ok > 0, "O-1", "ValidateTrx(unstaking):owner", "an unstaking validation has no successful path when the sender does not own the stake named by the payload ("+why+")", "an unstaking transaction from someone who does not own the stake can pass validation: "+why, fnSite(w, sv))
 	}
 	eu := needFn(r, "O-1", w, fref{pkgStake, "StakeCtrler", "exeUnstaking"})
 	if eu != nil {
-		gs := w.FindGuards(eu, func(c string) bool { return c == cond || c == alt })
-		del := w.findCall(eu, d+".DelStake("+h+")")
-		ok := len(gs) == 1 && del != nil && gs[0].Protects(del.Block())
-		r.Check(ok, "O-1", "exeUnstaking:owner", "the owner check dominates the removal of the stake (issue #43)", "exeUnstaking removes the stake without checking that the sender owns it", fnSite(w, eu))
-		// and the stake that is removed is the one that was checked
-		nf := w.FindGuards(eu, func(c string) bool { return c == "("+d+".FindStake("+h+")#1 == nil)" })
-		r.Check(len(nf) == 1 && del != nil && nf[0].Protects(del.Block()), "O-1", "exeUnstaking:stake-exists", "a missing stake fails before anything is removed", "exeUnstaking does not fail on a missing stake", fnSite(w, eu))
+		delEv := func(in ssa.Instruction) string {
+			if c, ok := in.(ssa.CallInstruction); ok && w.callIs(c.Common(), fref{pkgStake, "Delegatee", "DelStake"}) {
+				return "DelStake"
+			}
+			return ""
+		}
+		reaches := func(f atom) (bool, string) {
+			saved := w.branchMarkers
+			w.branchMarkers = false
+			fe := w.newFactEval(nil, f)
+			paths, complete := w.enumPaths(eu, fe.eval, delEv, 4000)
+			w.branchMarkers = saved
+			if !complete {
+				return true, "path enumeration incomplete"
+			}
+			for _, p := range paths {
+				for _, e := range p.Events {
+					if e == "DelStake" {
+						return true, "a path removes the stake"
+					}
+				}
+				if p.Term == "ok" {
+					return true, "a path succeeds"
+				}
+			}
+			return false, fmt.Sprintf("none of %d paths removes a stake or succeeds", len(paths))
+		}
+		bad, why := reaches(notOwner)
+		r.Check(!bad, "O-1", "exeUnstaking:owner", "when the sender does not own the stake nothing is removed and the execution fails (issue #43): "+why, "exeUnstaking removes the stake without checking that the sender owns it: "+why, fnSite(w, eu))
+		bad2, why2 := reaches(missing)
+		r.Check(!bad2, "O-1", "exeUnstaking:stake-exists", "a missing stake fails before anything is removed: "+why2, "exeUnstaking does not fail on a missing stake: "+why2, fnSite(w, eu))
+		// sanity: without facts the stake can be removed
+		if b, _ := reaches(AR(`^never$`, "==", `^never$`)); !b {
+			r.Undecided("O-1", "exeUnstaking:removal", "no path of exeUnstaking removes a stake", fnSite(w, eu))
+		}
 	}
 }
 
@@ -590,19 +616,47 @@ var reRefund = regexp.MustCompile(`^\(p0\.Height(\(\))? \+ (p0\.GovHandler|recv\
 
 func o2(w *World, r *Report) {
 	n := 0
+	allowedFns := map[string]string{"stake.(*StakeCtrler).exeUnstaking": "unstaking", "stake.(*StakeCtrler).BeginBlock": "jailing"}
+	// valueOK: the stored value is `height + LazyRewardBlocks()`; a parameter is
+	// followed to the arguments at every call site
+	var valueOK func(fn *ssa.Function, v ssa.Value, depth int) (bool, string)
+	valueOK = func(fn *ssa.Function, v ssa.Value, depth int) (bool, string) {
+		if reRefund.MatchString(w.Canon(v)) {
+			return true, ""
+		}
+		if pi := paramIndexIn(fn, v); pi >= 0 && depth < 3 {
+			cs := w.nodeCallers(fn)
+			if len(cs) == 0 {
+				return false, "no caller of " + w.FName(fn)
+			}
+			for _, c := range cs {
+				if pi >= len(c.Site.Common().Args) {
+					return false, "call shape"
+				}
+				if ok, why := valueOK(c.Caller, c.Site.Common().Args[pi], depth+1); !ok {
+					return false, why
+				}
+			}
+			return true, ""
+		}
+		return false, w.Canon(v)
+	}
 	for _, fn := range w.nodeFuncs() {
 		for _, fs := range w.fieldStores(fn) {
 			if fs.Field.Name() != "RefundHeight" || !namedIs(fs.Owner, absPkg(pkgStake), "Stake") || baseFresh(fs.Addr) {
 				continue
 			}
 			n++
-			v := w.Canon(fs.Val)
-			okFn := w.FName(fn) == "stake.(*StakeCtrler).exeUnstaking" || w.FName(fn) == "stake.(*StakeCtrler).BeginBlock"
-			r.Check(reRefund.MatchString(v) && okFn, "O-2", fmt.Sprintf("RefundHeight:%s", w.FName(fn)), "refund height = current block height + governance unbonding period", "a stake's refund height is set to "+v+" (not `current height + LazyRewardBlocks()`)", site(w, fs.In))
+			okV, v := valueOK(fn, fs.Val, 0)
+			_, okFn := allowedFns[w.FName(fn)]
+			if !okFn {
+				_, okFn = w.onlyReachedFrom(fn, allowedFns, 0, map[*ssa.Function]bool{})
+			}
+			r.Check(okV && okFn, "O-2", fmt.Sprintf("RefundHeight:%s", w.FName(fn)), "refund height = current block height + governance unbonding period", "a stake's refund height is set to "+v+" (not `current height + LazyRewardBlocks()`), or outside unstaking / jailing", site(w, fs.In))
 		}
 	}
-	if n < 3 {
-		r.Undecided("O-2", "RefundHeight:stores", fmt.Sprintf("%d assignments of RefundHeight found, 3 expected", n))
+	if n < 1 {
+		r.Undecided("O-2", "RefundHeight:stores", "no assignment of RefundHeight found")
 	}
 	// each frozen Set is preceded by the refund-height assignment of the same stake
 	for _, ref := range []fref{{pkgStake, "StakeCtrler", "exeUnstaking"}, {pkgStake, "StakeCtrler", "BeginBlock"}} {
@@ -729,15 +783,12 @@ func checkC13(w *World, r *Report) {
 	}
 	sv := needFn(r, "W-4", w, fref{pkgStake, "StakeCtrler", "ValidateTrx"})
 	if sv != nil {
-		rw := "phi(recv.rewardLedger.Get|recv.rewardLedger.GetFinality)(ledger.ToLedgerKey(p0.Tx.From))#0"
-		gs := w.FindGuards(sv, func(c string) bool {
-			return c == "(p0.Tx.Payload.(*types.TrxPayloadWithdraw)#0.ReqAmt.Cmp("+rw+".cumulated) > 0)"
-		})
-		ok := len(gs) == 1
-		n := 0
-		if ok {
-			ok, n = w.okPathsPassGuard(sv, w.evalTxCond(txAbs{typ: 8}), gs[0])
-		}
+		base := w.evalTxCond(txAbs{typ: 8})
+		// under "requested amount > withdrawable (cumulated) reward of the sender's reward object
+		// read through the exec-selected overlay" the validation has no successful path
+		over := AR(`TrxPayloadWithdraw\)(#0)?\.ReqAmt$`, ">", `rewardLedger\.(Get|GetFinality).*\(ledger\.ToLedgerKey\(p0\.Tx\.From\)\)#0\)?\.(cumulated|GetCumulated\(\))$`)
+		ok, _ := w.failsUnder(sv, base, over)
+		n := w.runUnder(sv, base, nil).ok
 		r.Check(ok && n > 0, "W-4", "ValidateTrx(withdraw):bounded", fmt.Sprintf("all %d success paths of a withdraw validation refuse a request above the sender's withdrawable reward", n), "a withdrawal above the withdrawable reward can pass validation", fnSite(w, sv))
 	}
 	rep := NewReport("C13", "quick")
